@@ -476,6 +476,23 @@ impl Env {
     })
   }
 
+  /// like tag_inner, but the subscriber of every inner observable leaves after its first item
+  fn tag_inner_firsts(&self, o: Observable<'static, Observable<'static, V>>) -> Ob {
+    let tok = CTok::new(&self.ctx);
+    observables::defer(move || {
+      let cnt = Arc::new(AtomicUsize::new(0));
+      let tok = tok.clone();
+      o.flat_map(move |w: Observable<'static, V>| {
+        let idx = cnt.fetch_add(1, Ordering::SeqCst) as i64;
+        let tok = tok.clone();
+        w.take(1).map(move |v: V| {
+          let _t = &tok;
+          v.with(P::L(vec![P::I(idx), v.p.clone()]))
+        })
+      })
+    })
+  }
+
   fn apply(&self, op: &Op, o: Ob) -> Ob {
     let ctx = self.ctx.clone();
     let tok = CTok::new(&self.ctx);
@@ -570,6 +587,14 @@ impl Env {
           v.p.as_i64().rem_euclid(k)
         }))
       }
+      Op::GroupFirsts(k) => {
+        let k = k.max(1);
+        self.tag_inner_firsts(o.group_by(move |v: V| {
+          let _t = &tok;
+          v.p.as_i64().rem_euclid(k)
+        }))
+      }
+      Op::WindowFirsts(n) => self.tag_inner_firsts(o.window_with_count(n)),
       Op::Materialize => o.materialize().map(move |m: Material<V>| {
         let _t = &tok;
         match m {
@@ -1013,10 +1038,10 @@ pub fn run_action(sh: &Arc<Shared>, a: &Action) {
     Action::Connect => {
       let p = lk(&sh.publish).clone();
       if let Some(p) = p {
-        if lk(&sh.connection).is_none() {
-          let c = p.connect();
-          *lk(&sh.connection) = Some(c);
-        }
+        // (the histories call connect again only once the previous connection is over: its
+        // handle is then simply dropped)
+        let c = p.connect();
+        *lk(&sh.connection) = Some(c);
       }
     }
     Action::Disconnect => {
